@@ -66,7 +66,7 @@ theorem swapVertex_props_eq (k : Kernel) (a b : Nat) (hab : a ≠ b) : (k.swapVe
 theorem swapCell_props_eq (k : Kernel) (a b : Nat) (hab : a ≠ b) : (k.swapCell a b).props = swapCProps k.props a b := by
   unfold swapCell; simp [hab]
 
-theorem same_swapEdge {k1 k2 : Kernel} {a b : Nat} (s : SameDefs k1 k2) (i1 : GInv k1) (i2 : GInv k2)
+theorem same_swapEdge {k1 k2 : Kernel} {a b : Nat} (s : SameDefs k1 k2) (w1 : WF k1) (w2 : WF k2)
     (ha : a < k1.nE) (hb : b < k1.nE) : SameDefs (k1.swapEdge a b) (k2.swapEdge a b) := by
   by_cases hab : a = b
   · subst hab; rw [swapEdge_self, swapEdge_self]; exact s
@@ -80,19 +80,19 @@ theorem same_swapEdge {k1 k2 : Kernel} {a b : Nat} (s : SameDefs k1 k2) (i1 : GI
     by simpa using s.deferred, by simpa using s.fast,
     by rw [swapEdge_props_eq _ _ _ hab, swapEdge_props_eq _ _ _ hab, s.props], ?_, ?_, ?_⟩
   · intro e hl
-    rw [swapEdge_liveE hab ha hb i1.wf.len.eDel] at hl
+    rw [swapEdge_liveE hab ha hb w1.len.eDel] at hl
     rw [swapEdge_edgeAt hab ha hb, swapEdge_edgeAt hab ha2 hb2]
     exact s.edgeAt _ hl
   · intro f hl
     rw [liveF_of_len (swapEdge_faces_length k1 a b) (swapEdge_fDel k1 a b)] at hl
-    rw [swapEdge_faceAt_live hab ha hb i1.wf.cache.e (fun _ => hl),
-      swapEdge_faceAt_live hab ha2 hb2 i2.wf.cache.e (fun _ => by rw [← s.liveF]; exact hl), s.faceAt f hl]
+    rw [swapEdge_faceAt_live hab ha hb w1.cache.e (fun _ => hl),
+      swapEdge_faceAt_live hab ha2 hb2 w2.cache.e (fun _ => by rw [← s.liveF]; exact hl), s.faceAt f hl]
   · intro c hl
     rw [liveC_of_eq (swapEdge_cells k1 a b) (swapEdge_cDel k1 a b)] at hl
     rw [cellAt_of_eq (swapEdge_cells k1 a b), cellAt_of_eq (swapEdge_cells k2 a b)]
     exact s.cellAt c hl
 
-theorem same_swapFace {k1 k2 : Kernel} {a b : Nat} (s : SameDefs k1 k2) (i1 : GInv k1) (i2 : GInv k2)
+theorem same_swapFace {k1 k2 : Kernel} {a b : Nat} (s : SameDefs k1 k2) (w1 : WF k1) (w2 : WF k2) (o1 : k1.oneCell = true) (o2 : k2.oneCell = true)
     (ha : a < k1.nF) (hb : b < k1.nF) : SameDefs (k1.swapFace a b) (k2.swapFace a b) := by
   by_cases hab : a = b
   · subst hab; rw [swapFace_self, swapFace_self]; exact s
@@ -111,16 +111,16 @@ theorem same_swapFace {k1 k2 : Kernel} {a b : Nat} (s : SameDefs k1 k2) (i1 : GI
     rw [edgeAt_of_eq (swapFace_edges k1 a b), edgeAt_of_eq (swapFace_edges k2 a b)]
     exact s.edgeAt e hl
   · intro f hl
-    rw [swapFace_liveF hab ha hb i1.wf.len.fDel] at hl
+    rw [swapFace_liveF hab ha hb w1.len.fDel] at hl
     rw [swapFace_faceAt hab ha hb, swapFace_faceAt hab ha2 hb2]
     exact s.faceAt _ hl
   · intro c hl
     rw [liveC_of_len (swapFace_cells_length k1 a b) (swapFace_cDel k1 a b)] at hl
-    rw [swapFace_cellAt_live hab ha hb i1.wf.cache.f (fun _ => i1.one) (fun _ => hl),
-      swapFace_cellAt_live hab ha2 hb2 i2.wf.cache.f (fun _ => i2.one) (fun _ => by rw [← s.liveC]; exact hl),
+    rw [swapFace_cellAt_live hab ha hb w1.cache.f (fun _ => o1) (fun _ => hl),
+      swapFace_cellAt_live hab ha2 hb2 w2.cache.f (fun _ => o2) (fun _ => by rw [← s.liveC]; exact hl),
       s.cellAt c hl]
 
-theorem same_swapVertex {k1 k2 : Kernel} {a b : Nat} (s : SameDefs k1 k2) (i1 : GInv k1) (i2 : GInv k2)
+theorem same_swapVertex {k1 k2 : Kernel} {a b : Nat} (s : SameDefs k1 k2) (w1 : WF k1) (w2 : WF k2)
     (ha : a < k1.nV) (hb : b < k1.nV) : SameDefs (k1.swapVertex a b) (k2.swapVertex a b) := by
   by_cases hab : a = b
   · subst hab; rw [swapVertex_self, swapVertex_self]; exact s
@@ -136,8 +136,8 @@ theorem same_swapVertex {k1 k2 : Kernel} {a b : Nat} (s : SameDefs k1 k2) (i1 : 
   · intro e hl
     rw [liveE_of_len (swapVertex_edges_length k1 a b) (swapVertex_eDel k1 a b)] at hl
     have helt : e < k1.edges.length := by unfold Kernel.liveE Kernel.nE at hl; simp at hl; exact hl.1
-    rw [swapVertex_edgeAt_live hab ha hb i1.wf.cache.v helt (fun _ => hl),
-      swapVertex_edgeAt_live hab ha2 hb2 i2.wf.cache.v (by rw [← s.nE]; exact helt) (fun _ => by rw [← s.liveE]; exact hl),
+    rw [swapVertex_edgeAt_live hab ha hb w1.cache.v helt (fun _ => hl),
+      swapVertex_edgeAt_live hab ha2 hb2 w2.cache.v (by rw [← s.nE]; exact helt) (fun _ => by rw [← s.liveE]; exact hl),
       s.edgeAt e hl]
   · intro f hl
     rw [liveF_of_eq (swapVertex_faces k1 a b) (swapVertex_fDel k1 a b)] at hl
@@ -148,7 +148,7 @@ theorem same_swapVertex {k1 k2 : Kernel} {a b : Nat} (s : SameDefs k1 k2) (i1 : 
     rw [cellAt_of_eq (swapVertex_cells k1 a b), cellAt_of_eq (swapVertex_cells k2 a b)]
     exact s.cellAt c hl
 
-theorem same_swapCell {k1 k2 : Kernel} {a b : Nat} (s : SameDefs k1 k2) (i1 : GInv k1)
+theorem same_swapCell {k1 k2 : Kernel} {a b : Nat} (s : SameDefs k1 k2) (w1 : WF k1)
     (ha : a < k1.nC) (hb : b < k1.nC) : SameDefs (k1.swapCell a b) (k2.swapCell a b) := by
   by_cases hab : a = b
   · subst hab; rw [swapCell_self, swapCell_self]; exact s
@@ -171,7 +171,7 @@ theorem same_swapCell {k1 k2 : Kernel} {a b : Nat} (s : SameDefs k1 k2) (i1 : GI
     rw [faceAt_of_eq (swapCell_faces k1 a b), faceAt_of_eq (swapCell_faces k2 a b)]
     exact s.faceAt f hl
   · intro c hl
-    rw [swapCell_liveC hab ha hb i1.wf.len.cDel] at hl
+    rw [swapCell_liveC hab ha hb w1.len.cDel] at hl
     rw [swapCell_cellAt hab ha hb, swapCell_cellAt hab ha2 hb2]
     exact s.cellAt _ hl
 
